@@ -87,6 +87,16 @@ Comps == {"cfg", "ns", "usr", "seq", "nam", "cch", "tool", "srv"}
 \* what queries can see
 Obs(st) == [st EXCEPT !.hid = NoHid]
 
+\* ---- namespaces a client sees.  st.ns holds the USER namespaces (created through the namespace API: replicated, written to
+\* the snapshot).  The listing also shows every namespace that is IN USE by a configuration, under its id, until a user
+\* names it (NamespaceActor "weak" namespaces: flags CONFIG / NAMING set by the config and service indexes, never
+\* snapshotted, rebuilt from the configurations at start-up).  CfgTenant tells in which namespace a config key lives:
+\* "" (the default namespace) unless a configuration overrides the definition.
+CfgTenant(k) == ""
+TenantsInUse(st) == {CfgTenant(k) : k \in DOMAIN st.cfg} \ {""}
+ListedNs(st) == [id \in (DOMAIN st.ns) \cup TenantsInUse(st) |-> IF id \in DOMAIN st.ns THEN st.ns[id] ELSE id]
+Served(st) == [Obs(st) EXCEPT !.ns = ListedNs(st)]
+
 \* ------------------------------------------------------------------ reference semantics
 
 Put(f, k, v) == [x \in (DOMAIN f) \cup {k} |-> IF x = k THEN v ELSE f[x]]
@@ -143,7 +153,7 @@ ApplyReq(st, r) ==
       [] r.t = "cfg_del" -> [st EXCEPT !.cfg = Del(st.cfg, r.k)]
       \* namespace name: "" = not given (an existing namespace keeps its name), GivenEmpty = the empty name
       [] r.t = "ns_set"  -> [st EXCEPT !.ns = Put(st.ns, r.k, IF r.v = GivenEmpty THEN ""
-                                                               ELSE IF r.v = "" /\ r.k \in DOMAIN st.ns THEN st.ns[r.k] ELSE r.v)]
+                                                               ELSE IF r.v = "" /\ r.k \in DOMAIN ListedNs(st) THEN ListedNs(st)[r.k] ELSE r.v)]
       [] r.t = "ns_del"  -> [st EXCEPT !.ns = Del(st.ns, r.k)]
       [] r.t = "usr_set" -> [st EXCEPT !.usr = Put(st.usr, r.k, r.v)]
       [] r.t = "usr_del" -> [st EXCEPT !.usr = Del(st.usr, r.k)]
@@ -276,7 +286,7 @@ Apply(r0) ==
     /\ sm' = ApplyReq(sm, r)
     /\ nextHid' = nextHid + Inc(r0)
     /\ UNCHANGED <<snaps, partial, capturing>>
-    /\ Step([op |-> "apply", index |-> applied + 1, req |-> r, sm |-> Obs(sm')])
+    /\ Step([op |-> "apply", index |-> applied + 1, req |-> r, sm |-> Served(sm')])
 
 \* follower path: two committed requests are handed over in one batch
 ApplyBatch(q1, q2) ==
@@ -287,7 +297,7 @@ ApplyBatch(q1, q2) ==
     /\ sm' = ApplyReq(ApplyReq(sm, r1), r2)
     /\ nextHid' = nextHid + Inc(q1) + Inc(q2)
     /\ UNCHANGED <<snaps, partial, capturing>>
-    /\ Step([op |-> "apply_batch", index |-> applied + 1, reqs |-> <<r1, r2>>, sm |-> Obs(sm')])
+    /\ Step([op |-> "apply_batch", index |-> applied + 1, reqs |-> <<r1, r2>>, sm |-> Served(sm')])
 
 NextSnapId == IF Len(snaps) = 0 THEN 1 ELSE snaps[Len(snaps)].id + 1
 
@@ -304,7 +314,7 @@ Compact ==
        IN snaps' = IF Len(snaps) >= 2 THEN <<snaps[Len(snaps)], snap>> ELSE Append(snaps, snap)
     /\ partial' = NoState
     /\ UNCHANGED <<log, applied, sm, capturing, nextHid>>
-    /\ Step([op |-> "compact", upto |-> applied, sm |-> Obs(sm)])
+    /\ Step([op |-> "compact", upto |-> applied, sm |-> Served(sm)])
 
 \* Defect_NonAtomicCapture: BuildSnapshot records `applied` first ...
 CaptureBegin ==
@@ -319,7 +329,7 @@ CaptureEnd ==
        IN snaps' = IF Len(snaps) >= 2 THEN <<snaps[Len(snaps)], snap>> ELSE Append(snaps, snap)
     /\ capturing' = 0 /\ partial' = NoState
     /\ UNCHANGED <<log, applied, sm, nextHid>>
-    /\ Step([op |-> "compact_late", upto |-> capturing, sm |-> Obs(sm)])
+    /\ Step([op |-> "compact_late", upto |-> capturing, sm |-> Served(sm)])
 
 \* an attempt to write snapshot_<next id> is interrupted after the file was written and before the
 \* catalogue was updated: the file keeps the state captured now
@@ -328,7 +338,7 @@ InterruptSnap ==
     /\ (IF Len(snaps) = 0 THEN TRUE ELSE snaps[Len(snaps)].end < applied)
     /\ partial' = Obs(sm)
     /\ UNCHANGED <<log, applied, sm, snaps, capturing, nextHid>>
-    /\ Step([op |-> "interrupt_snapshot", sm |-> Obs(sm)])
+    /\ Step([op |-> "interrupt_snapshot", sm |-> Served(sm)])
 
 Restart ==
     /\ ops > 0 /\ capturing = 0
@@ -337,7 +347,7 @@ Restart ==
            from == IF Len(snaps) = 0 THEN 1 ELSE snaps[Len(snaps)].end + 1
        IN sm' = Fold(base, log, from, applied)
     /\ UNCHANGED <<log, applied, snaps, partial, capturing, nextHid>>
-    /\ Step([op |-> "restart", sm |-> Obs(sm)])      \* the CONTRACT expects the identity
+    /\ Step([op |-> "restart", sm |-> Served(sm)])      \* the CONTRACT expects the identity
 
 Next ==
     \/ \E r \in Requests : Apply(r)
